@@ -185,6 +185,55 @@ func zzC13_history() {
 	symAssert(cc.numOutstandingInteraction.TryAcquire(1<<62), "no outstanding-interaction slot is retained")
 }
 
+// a confirmable request that is queued behind NSTART (an earlier one is unanswered) and gives up there - cancelled,
+// or the connection's outstanding request ends first - leaves nothing behind, and nothing of it is ever sent later
+func zzC13_nstart_cancel() {
+	s := zzNewSession()
+	cc := zzNewConn(s, zzConnCfg{midSeed: 1000, nstart: 1, maxRetrans: 2, ackTimeout: 1 << 30})
+	now := int64(1 << 41)
+	symSetNow(time.Unix(0, now))
+	blocker := &zzCall{token: message.Token{0xBB}}
+	go zzDo(cc, blocker)
+	zzWaitWritten(s, 1)
+	symIdle()
+	ctx, cancel := context.WithCancel(context.Background())
+	q := &zzCall{token: message.Token{0xA1}}
+	oneWay := symChoose("queued-operation", 2) == 1 // 0: Do, 1: confirmable one-way write
+	go func() {
+		req := pool.NewMessage(ctx)
+		req.SetCode(codes.GET)
+		req.SetToken(q.token)
+		req.SetType(message.Confirmable)
+		_ = req.SetPath("/a")
+		if oneWay {
+			q.err = cc.WriteMessage(req)
+		} else {
+			q.resp, q.err = cc.Do(req)
+		}
+		q.done = true
+	}()
+	symIdle()
+	symAssert(!q.done && len(s.written) == 1, "the second request waits for the outstanding-interaction slot")
+	cancel()
+	symWaitUntil(func() bool { return q.done })
+	symAssert(q.err != nil, "the cancelled request returns an error")
+	symCover("cancelled-while-queued")
+	// the first request is answered; then housekeeping far beyond every deadline
+	zzAnswer(cc, s.written[0], 1, 0, 1)
+	symWaitUntil(func() bool { return blocker.done })
+	base := len(s.written)
+	for k := 0; k < 3; k++ {
+		now += int64(100 * time.Second)
+		symSetNow(time.Unix(0, now))
+		cc.CheckExpirations(time.Unix(0, now))
+	}
+	symAssert(len(s.written) == base, "nothing of the request that gave up is transmitted afterwards")
+	symAssert(cc.tokenHandlerContainer.Length() == 0, "no waiting token continuation is retained")
+	symAssert(cc.midHandlerContainer.Length() == 0, "no waiting message-ID continuation is retained")
+	symAssert(cc.numOutstandingInteraction.TryAcquire(1<<62), "no outstanding-interaction slot is retained")
+	symCover("ticked")
+}
+
 func zzC13_selftest() {
 	s := zzNewSession()
 	cc := zzNewConn(s, zzConnCfg{midSeed: 1000, nstart: 2, maxRetrans: 2, ackTimeout: 1 << 30})
